@@ -132,6 +132,14 @@ TEXT = {
         'note': NOTE_COMMON + ' Data-race freedom of concurrent CPUs is a runtime fact supported by the race detector run, not proved.',
         'technique': 'Lean 4 proof over regenerated struct/global facts + induction (snapshot composition, schedule interleaving); real-vs-real snapshot-rebuild correspondence and race-detector run as support',
     },
+    'C18': {
+        'text': 'Machine-checked on the regenerated CPU model (Gen.Step via C01) executing the BIOS bytes that go2lean extracts from tinycpm.go on every run: from the vector at 0005h with C=2 the stub writes exactly E to port 0 and returns to the address on the stack '
+                'in 7 Steps; with C=9, for EVERY string without $ (any length, any byte values incl. 00h and >=80h, at any address, wrapping past FFFFh) followed by $, it writes exactly those bytes to port 0 in order and returns after 6*len+9 Steps (induction over the string); '
+                'in both cases SP is restored, memory (caller code included) is untouched, BC/HL preserved; a jump to 0 halts at FF03h; the console model (port-0 writes in order, everything else a warning) appends exactly the printed bytes. '
+                'tinycpm.IO/Memory themselves are modelled by hand and tied by the correspondence on the real package.',
+        'note': NOTE_COMMON + ' tinycpm.IO (writer/logger plumbing) is modelled by hand.',
+        'technique': 'Lean 4 proof: per-instruction Step lemmas through C01, composed symbolic execution of the regenerated stub bytes, induction over the string; differential correspondence on the real tinycpm package',
+    },
     'C16': {
         'text': 'Machine-checked symbolic bit-vector theorems over the definitions regenerated from flag.go/z80.go: GetFlag = any-named-bit, '
                 'SetFlag = F|m, ResetFlag = F&~m for all masks and all F, frame (A and all other fields unchanged), constants = Z80 bit positions, '
